@@ -1,4 +1,4 @@
-"""Traces of the repository's own tests (hook H4, hook H3): grouping and interning for the trace specifications.
+"""Traces of the repository's own tests (hook H5, hook H3): grouping and interning for the trace specifications.
 No state is guessed here: events are grouped by recording thread and writer instance (in recording order), names
 (logged as 64-bit hashes + lengths) are replaced by small integers, and writers whose numbers do not fit TLC's 32-bit
 integers are counted and left out."""
